@@ -323,5 +323,5 @@ Section Reorder.
   Qed.
 End Reorder.
 
-Theorem ord_value : S_ord_value.
+Theorem rb_ord_value : S_ord_value.
 Proof. intros R A fold init rs arr Hp. apply ord_value_sec. exact Hp. Qed.
